@@ -69,7 +69,7 @@ import json
 import logging
 import os
 
-from mc.pool import pmap, ncpu
+from mc.pool import pmap
 from mc.report import VioBag
 from mc.refmodel import sourcemap as R5
 
@@ -211,24 +211,25 @@ def is_explicit(f):
             not isinstance(l, bool) and l > 0 and c > 0)
 
 
-def kind(f, line_marker=True):
-    """Abstract fragment kind used in signatures."""
+def kind(f):
+    """Abstract position class of a fragment, used in signatures."""
     if f is None:
-        return '^'
-    t, l, c, n, s = f
-    if l is None or c is None:
-        k = 'N'
-    elif is_explicit(f):
-        k = 'E'
-    else:
-        k = 'I'
-    if n is not None:
-        k += 'n'
-    if not t:
-        k += '0'
-    elif line_marker and textinfo(t)[0]:
-        k += '/'
-    return k
+        return 'start'
+    if f[1] is None or f[2] is None:
+        return 'N'
+    return 'E' if is_explicit(f) else 'I'
+
+
+def context(normalize, gline, gcol, prev):
+    """
+    Abstract local context of a judged fragment: normalize flag, whether it
+    is the first text of a generated line, position class of the previous
+    written fragment (N unmapped, I inferred, E explicit).
+    """
+    return '%s|%s|after-%s' % (
+        'norm' if normalize else 'raw',
+        'line-start' if (gcol == 0 and gline > 0) else 'mid-line',
+        kind(prev))
 
 
 def srckind(s):
@@ -330,7 +331,7 @@ def judge(frags, normalize, text, mappings_str, sources, names, bag, witness,
             cnt.judged += 1
             check_at(dec, normalize, gline, gcol, l, c, want_src, name, src,
                      sources, names, '',
-                     '%s|%s>%s' % (n, kind(prev), kind(f, False)),
+                     context(normalize, gline, gcol, prev),
                      f, bag, witness, cnt)
             if want_src is None:
                 cnt.abst_src += 1
@@ -344,8 +345,9 @@ def judge(frags, normalize, text, mappings_str, sources, names, bag, witness,
             # original length, same line)
             check_at(dec, normalize, gline, gcol, inf_base[0],
                      inf_base[1] + inf_base[2], want_src, name, src, sources,
-                     names, 'ext-inferred-', '%s|%s>%s' % (
-                         n, kind(prev), kind(f, False)), f, bag, witness, cnt)
+                     names, 'ext-inferred-',
+                     context(normalize, gline, gcol, prev), f, bag, witness,
+                     cnt)
         # advance
         if t:
             nl, last, _, _ = textinfo(t)
